@@ -1680,7 +1680,7 @@ fn process_stream_search_params<T: Read + Write>(
         i += 1;
     }
     let next_search_idx = if i < stream_msgs_len {
-        Some(i + 1)
+        Some(i) // i is already the first position not examined yet
     } else {
         None
     };
